@@ -53,17 +53,108 @@ def rnd_op(rng, size):
     return rng.choice([("ds", [str(a)]), ("dp", [str(a)]), ("dls", [str(a)]), ("dl", [str(a), "0"]), ("wu32", [str(a), "305419896"])])
 
 
+# pointer targets are caller-supplied usize values (write_pointer validates only the cell): the relocation arithmetic on them
+# must be exact on the whole range - around 2^31 and 2^32 (a signed or 32-bit intermediate), 2^63 (isize), 2^64 (usize)
+HUGE_TARGETS = ([MAXU - k for k in range(0, 13)] + [(1 << 63) + d for d in (-8, -4, -1, 0, 1, 4, 8)] +
+                [(1 << 32) + d for d in (-16, -12, -8, -4, -1, 0, 1, 4, 8, 12, 16)] +
+                [(1 << 31) + d for d in (-16, -12, -8, -4, -1, 0, 1, 4, 8, 12, 16)] + [MAXU - 16, MAXU - 20, MAXU - 64])
+HUGE_AMOUNTS = [MAXU - 3, MAXU - 7, MAXU - 11, MAXU - 15, MAXU - 19, (1 << 63), (1 << 63) + 4, (1 << 63) - 4, (1 << 63) - 8, (1 << 63) - 12,
+                (1 << 63) - 16, MAXU, MAXU - 1, MAXU - 2, (1 << 63) - 1, (1 << 63) - 3]
+
+
+def safe_amount(rng, size, pool):
+    """an allocate amount the library can serve or must reject: small, or so large that the new size exceeds isize::MAX
+    (an ACCEPTED huge amount would make the library allocate it: resource exhaustion, outside the property)"""
+    n = rng.choice(pool)
+    if n > 64 and size + n <= pyarchive.ISIZE_MAX:
+        n = pyarchive.ISIZE_MAX + 1 - size + 4 * rng.randint(0, 3) + rng.choice([0, 0, 0, 1])
+    return n
+
+
+def usize_target_cases(rng, tier):
+    cases = []
+    # one or two huge targets x every insertion point x small amounts around the distance to 2^64, both ge, then a second insertion
+    for e in "LB":
+        for t in HUGE_TARGETS:
+            for a in (0, 4, 8, 16, 3, 20):
+                for n in (0, 4, 8, 12, 16):
+                    for ge in "01":
+                        if tier == "quick" and (a, n, ge) not in ((0, 4, "0"), (8, 4, "1"), (4, 8, "0"), (16, 12, "1"), (0, 16, "0"), (3, 4, "0"), (20, 4, "1"), (8, 0, "1")):
+                            continue
+                        pre = [("aae", ["16"]), ("wp", ["0", str(t)]), ("wp", ["8", "8"]), ("wp", ["12", str(rng.choice(HUGE_TARGETS))]), ("wl", ["8", "B4c"])]
+                        post = [("al", ["0", "4", ge]), ("rp", ["4"]), ("de", ["0", "4", ge]), ("tr", ["8"])]
+                        cases.append(Case(pyarchive.render_case(e, 2, pre + [("al", [str(a), str(n), ge])] + post), "usize-targets"))
+            # deallocate in front of / on the pointer cells: surviving targets move back by exactly n
+            for a in (0, 4, 8):
+                for n in (4, 8, 12):
+                    for ge in "01":
+                        if tier == "quick" and (a, n, ge) not in ((0, 4, "0"), (4, 4, "1"), (0, 8, "1"), (4, 8, "0"), (8, 4, "0"), (0, 12, "1")):
+                            continue
+                        pre = [("aae", ["16"]), ("wp", ["12", str(t)]), ("wp", ["8", str(rng.choice(HUGE_TARGETS))]), ("wp", ["4", str(a)]), ("wl", ["8", "B4c"])]
+                        cases.append(Case(pyarchive.render_case(e, 2, pre + [("de", [str(a), str(n), ge]), ("al", ["0", "4", ge]), ("rp", ["4"])]), "usize-targets"))
+        # amounts up to usize::MAX - 3: rejected before anything changes, whatever the address, with and without huge targets
+        for n in HUGE_AMOUNTS:
+            for a in (0, 4, 16, 2, 20, MAXU - 3):
+                for ge in "01":
+                    for pre in ([], [("aae", ["16"])], [("aae", ["16"]), ("wp", ["4", str(MAXU - 1)]), ("ws", ["8", "B41"]), ("wl", ["16", "B45"]), ("wc", ["12", "B43"])]):
+                        size = 16 if pre else 0
+                        if n > 64 and size + n <= pyarchive.ISIZE_MAX:
+                            continue   # would be accepted: the library would have to allocate it
+                        cases.append(Case(pyarchive.render_case(e, 2, pre + [("al", [str(a), str(n), ge]), ("al", ["0", "4", ge])]), "usize-targets"))
+                        if pre and a < 16:   # at the end the writer appends byte by byte (allocate_at_end): not with a huge amount
+                            cases.append(Case(pyarchive.render_case(e, 2, pre + [("Wseek", [str(a)]), ("Wal", [str(n), ge])]), "usize-targets"))
+    # random histories over archives whose pointers carry arbitrary usize targets
+    nh, maxlen = (150, 10) if tier == "quick" else (1500, 40)
+    for _ in range(nh):
+        e = rng.choice("LB")
+        r = pyarchive.Ref(e)
+        size0 = 4 * rng.randint(1, 6)
+        ops = [("aae", [str(size0)])]
+        r.apply("aae", [str(size0)])
+        for _ in range(rng.randint(2, maxlen)):
+            size = len(r.d)
+            x = rng.random()
+            cell = str(4 * rng.randint(0, max(size // 4, 1)))
+            if x < 0.3:
+                t = rng.choice([rng.choice(HUGE_TARGETS), MAXU - rng.randint(0, 40), rng.randint(0, size + 4), 4 * rng.randint(0, size // 4)])
+                op = ("wp", [cell, str(t)])
+            elif x < 0.65:
+                n = safe_amount(rng, size, [0, 4, 4, 8, 12, 16, 20, 32, 2, 7] + HUGE_AMOUNTS)
+                op = ("al", [rng.choice([cell, cell, str(rng.randint(0, size + 4))]), str(n), str(rng.randint(0, 1))])
+            elif x < 0.75:
+                op = ("de", [cell, str(rng.choice([0, 4, 4, 8, MAXU - 3])), str(rng.randint(0, 1))])
+            elif x < 0.8:
+                op = ("tr", [cell])
+            elif x < 0.85:
+                op = ("wl", [str(rng.randint(0, size)), "B4c"])
+            elif x < 0.9:
+                op = rng.choice([("ws", [cell, "B41"]), ("wc", [cell, "B43"])])
+            elif x < 0.95:
+                op = ("Wseek", [cell])
+            else:
+                # writer allocate: at the end it appends (small amounts only), elsewhere it is allocate at the cursor
+                n = rng.choice([0, 4, 8]) if r.wpos == size else safe_amount(rng, size, [4, 8, 12] + HUGE_AMOUNTS)
+                op = ("Wal", [str(n), str(rng.randint(0, 1))])
+            ops.append(op)
+            r.apply(op[0], op[1])
+        cases.append(Case(pyarchive.render_case(e, 2, ops), "usize-targets"))
+    return cases
+
+
 class C03(PropertyCheck):
     pid = "C03"
     release_too = True
     rule = ("exhaustive single operation: every archive layout from a family (<= 4 cells, one annotation of each kind at every position) x "
             "every allocate/deallocate/truncate argument (addresses 0..size+8, sizes 0..16 incl. misaligned and out of range, both ge); "
             "random histories of the nine operations (<= 12 steps quick, <= 60 thorough) on randomly annotated archives; a stream with "
-            "addresses/sizes near usize::MAX; the full observable state incl. the serialize image and the re-parsed c-strings is compared "
+            "addresses/sizes near usize::MAX; a stream with pointer targets in {2^64-1-k}, {2^63+d}, {2^32+d} x insertion points x amounts "
+            "around the distance to 2^64 and allocate amounts up to usize::MAX-3 (all of which must be rejected with the archive "
+            "unchanged), single operations and random histories; the full observable state incl. the serialize image and the re-parsed c-strings is compared "
             "after EVERY operation. Non-trivial = the case contains an accepted relocation of an archive that has at least one annotation; "
             "distinct = distinct case line.")
     assumptions = ["HashMap iteration order is unobservable in the compared state (everything printed sorted)",
-                   "huge allocate amounts (resource exhaustion) are outside the property and not generated"]
+                   "ACCEPTED huge allocate amounts (new size <= isize::MAX but beyond available memory: resource exhaustion) are outside the "
+                   "property and not generated; amounts whose new size exceeds isize::MAX must be rejected and are generated"]
 
     def generate(self, rng, tier):
         cases = []
@@ -98,6 +189,8 @@ class C03(PropertyCheck):
                     cases.append(Case(pyarchive.render_case(e, 2, pre + [("de", [str(a), str(n), "0"])]), "usize-max"))
                     if a > 16:
                         cases.append(Case(pyarchive.render_case(e, 2, pre + [("al", [str(a), "4", "1"]), ("tr", [str(a)])]), "usize-max"))
+        # pointer targets that leave usize when relocated, new sizes that are not a vector length (finding F24)
+        cases += usize_target_cases(rng, tier)
         # random histories
         nh, maxlen = (250, 12) if tier == "quick" else (2500, 60)
         for _ in range(nh):
@@ -135,15 +228,30 @@ TB = ("Trusted: Coq 8.16.1 kernel (vm_compute, no native_compute), no axioms (Pr
 
 MANIFEST = dict(
     text="Theorems about an executable Gallina model of allocate / deallocate / truncate / allocate_at_end / writer allocate: accept-iff "
-         "conditions (range and alignment, all arguments below 2^64, never a panic), exact relocation through the maps kappa (strings, "
-         "pointer cells, pending c-string cells) and tau (labels, pointer targets; inclusive iff ge) with DOMAIN EQUALITIES - every key of the "
-         "new maps is the image of an old key, nothing lost or invented -, removal of exactly the annotations in a deallocated range and the "
-         "pointers into it, truncation removing everything at or beyond the cut, appending always accepted, and an invariant over all "
+         "conditions (insert: range, alignment and REPRESENTABILITY - new size <= isize::MAX and every pointer target that moves stays "
+         "below 2^64, the check of fix 0edd128 / finding F24; remove: range and alignment for arguments below 2^64), every other request "
+         "rejected with one of two error kinds, never a panic; a second model of allocate in MACHINE arithmetic (add_w 64, checked and "
+         "wrapping profile, on EVERY key and target) in the statement order of the code that returns the archive the caller is left with is "
+         "proved equal to the functional one for both profiles on archives whose keys are <= size - an invariant proved for ALL histories "
+         "of API calls, aligned or not (C03_keys_invariant) - so 'rejected and the archive unchanged' is a theorem that fails for the code "
+         "before the fix (Example: panic after the splice / wrapped target) -, relocated targets and keys are usize values again, "
+         "deallocate's usize subtractions are exact (operands >= addr + n); exact relocation through the maps kappa (strings, pointer cells, pending c-string "
+         "cells) and tau (labels, pointer targets; inclusive iff ge) with DOMAIN EQUALITIES - every key of the new maps is the image of an "
+         "old key, nothing lost or invented - and duplicate-free key lists stay duplicate-free (no two annotations merged), removal of "
+         "exactly the annotations in a deallocated range and the pointers into it, truncation removing everything at or beyond the cut, "
+         "appending accepted whenever the new size is a vector length (size + n <= 2^63 - 1, stated hypothesis), and an invariant over all "
          "histories of cell-aligned operations (every annotated cell lies inside the data) by induction over the operation list. "
          "Model tied to /repo on every run: extracted model vs real library on exhaustive single operations over a layout family, random "
-         "histories and usize::MAX arguments, full state incl. serialize image and re-parsed c-strings after every step, debug and release; "
-         "independent Python reference written from the property text as oracle.",
-    note=TB + "Modelled, not verified: HashMap (association lists, order unobservable), Vec::splice/drain (A-std). Huge allocation amounts "
-              "(resource exhaustion) are outside the property. Strings are Shift-JIS encoded bytes (A-codec).",
-    technique="Coq proof (injectivity of the relocation maps, map/filter lemmas on association lists, induction over histories) + extracted-model differential check",
+         "histories, usize::MAX arguments, and a stream of pointer targets around 2^31 / 2^32 / 2^63 / 2^64 with insert amounts up to "
+         "usize::MAX - 3 (allocate and deallocate, both ge), full state incl. serialize image and re-parsed c-strings after every step "
+         "(also after every REJECTED step), debug and release; independent Python reference written from the property text as oracle.",
+    note=TB + "Modelled, not verified: HashMap (association lists, order unobservable), Vec::splice/drain (A-std). Insert/append amounts that are "
+              "ACCEPTED (new size <= isize::MAX) but exceed available memory abort the process in the allocator: resource exhaustion, outside "
+              "the property, not generated; above isize::MAX allocate rejects (proved, tested) while allocate_at_end never returns (hypothesis "
+              "of C03_append_always). The extracted (compared) allocate is the functional one with plain sums; the machine-arithmetic model is tied to it by "
+              "proof (C03_allocate_steps_agree), not by extraction. Annotation keys (cells, label addresses) are <= size in every reachable "
+              "archive (C03_keys_invariant); pointer targets are arbitrary usize values. 'Unchanged on rejection' for deallocate/truncate is by the "
+              "outcome type (all checks precede the first mutation in the code, the later arithmetic is proved exact) and tied by leg K. "
+              "Strings are Shift-JIS encoded bytes (A-codec).",
+    technique="Coq proof (injectivity of the relocation maps, map/filter lemmas on association lists, refinement of a machine-arithmetic step model, induction over histories) + extracted-model differential check",
     ref="DESIGN.md section 2 (C03)")
